@@ -77,6 +77,13 @@ CHECKS["C18"] = dict(
     technique=SYMEX, design_ref="DESIGN.md section 3, C18",
 )
 
+CHECKS["C03"] = dict(
+    engine="symex", category="other",
+    text="Bounded symbolic verification of the real filter_citations/overlapping_citations source and of get_citations' own tail (dispatch, reference collection, filter) on <=3 (quick) / <=4 (thorough) citations with symbolic spans and full spans: strictly increasing span order, pairwise disjoint spans, every non-reference kept, nothing invented, filter idempotent - z3 validity queries per path under a stated input envelope.",
+    note="The envelope is part of the claim and listed in the evidence: non-reference spans disjoint in token order (C12 + the C02 span lemma), short/id full spans cross no other special token, references start after a full case citation and never coincide character-for-character with another citation, full-span starts of full case citations monotone (argued, not solver-checked).",
+    technique=SYMEX, design_ref="DESIGN.md section 3, C03",
+)
+
 PENDING = {}
 
 NOT_APPLICABLE = {
